@@ -30,7 +30,7 @@ PROPS['C02'] = dict(
     props_file='Props/C02.v',
     kernels=['cs_has_available_charger', 'cs_increment_available', 'cs_decrement_available', 'cs_increment_enqueued', 'cs_decrement_enqueued',
              'base_has_available_stall', 'base_checkout_stall', 'base_return_stall'],
-    step_runs={Q: GEN + [('contention', 80, 40)], T: [('generic', 1500, 40), ('contention', 1500, 60)]},
+    step_runs={Q: GEN + [('contention', 80, 40), ('plugs', 80, 40)], T: [('generic', 1500, 40), ('contention', 1500, 60), ('plugs', 1500, 60)]},
     known_keys={},
 )
 PROPS['C03'] = dict(
@@ -74,7 +74,7 @@ PROPS['C17'] = dict(
 )
 PROPS['C18'] = dict(
     props_file='Props/C18.v', kernels=[],
-    step_runs={Q: GEN + [('contention', 80, 40)], T: [('generic', 1500, 40), ('contention', 1500, 60)]},
+    step_runs={Q: GEN + [('queue', 100, 40)], T: [('generic', 1500, 40), ('contention', 1500, 60), ('queue', 2000, 80)]},
     known_keys={'overtaken_in_queue_unusable_plug': ['can_use']},
 )
 PROPS['C20'] = dict(
@@ -96,4 +96,13 @@ PROPS['C11'] = dict(
     known_keys={},
     rule='eng_c11: seeded (step length, start, timeout, sorted request file with bursts/gaps/identical stamps, price table by id or region) runs through the real update functions; non-trivial = has both request and price rows',
     assumptions=['request file sorted by departure time (the property says so)', 'one addressing mode (station_id or geoid) per price table'],
+)
+
+PROPS['C06'] = dict(
+    props_file='Props/C06.v',
+    kernels=['hours_to_seconds', 'link_travel_time_seconds', 'point_along_link', 'traverse_up_to', 'rt_no_time_left', 'rt_add_traversal',
+             'rt_add_link_not_traversed', 'veh_tick_distance'],
+    step_runs={Q: GEN + [('requests', 80, 40)], T: [('generic', 1500, 40), ('requests', 1500, 60), ('fullsteps', 500, 96)]},
+    known_keys={'stuck_after_arrival': ['activity', 'cause']},
+    trusted_base=['oracle `mid` (h3 snapping inside point_along_link) and `gc` are arbitrary functions in the theorems; their answers are recorded from the real h3 calls in every correspondence case'],
 )
